@@ -105,6 +105,10 @@ inductive Kind where
   /-- from here on the store writes the provisioner data with the certificate
       (`StoreCertificateChain`; the SSH sign handler's X.509 identity certificate) -/
   | withData
+  /-- the provisioner failed to initialise (`provisioner.NewController` refuses a webhook whose kind
+      or certificate type is not a known spelling): it is loaded as disabled and every request
+      through it is refused before anything else happens -/
+  | refuse
   /-- one NOTIFYING webhook: its failure is ignored by the request (it only ends the
       notification loop; `allow` is not looked at) -/
   | notify
@@ -280,6 +284,7 @@ def execDB (e : Env) (s : St) : Kind → R
     | _ => .abort r.2
   | .challengeDone => if s.allowed = 0 then .abort s else .next s
   | .arm => .next { s with armed := true }
+  | .refuse => .abort s
   | .withData => .next { s with dataOk := true }
   | .notify =>
     if e.hooksUsable = false then .next { s with muted := true } else
@@ -326,6 +331,8 @@ structure Cfg where
   /-- SSH renew / rekey over mTLS: the client's X.509 identity certificate is renewed in the same
       request (`renewIdentityCertificate` → `Authority.Renew`) -/
   identity : Bool := false
+  /-- the provisioner the request goes through failed to initialise -/
+  refused : Bool := false
 
 /-- certificate type of a webhook controller (what the request issues) / `certType` attribute of
     a webhook definition; `unset` = the attribute is not written (hand-written ca.json) -/
@@ -349,11 +356,20 @@ def viaAdminDB : CertT → CertT
   | .unset | .unknown => .all
   | t => t
 
-/-- the webhooks of the provisioner that are consulted for a request of type `ctl` when all of
-    them are written with `certType = wh`, directly from ca.json or after the round trip through
-    the admin database -/
-def Cfg.consulted (c : Cfg) (ctl wh : CertT) (admin : Bool := false) : Cfg :=
-  if certTypeOK ctl (if admin then viaAdminDB wh else wh) then c else { c with e := 0, a := 0 }
+/-- `Webhook.validate` (called by `provisioner.NewController`): the kind must be one of the known
+    names, the certificate type a known name or absent.  Seen from ca.json the attribute is what
+    was written; seen through the admin database it is what `viaAdminDB` made of it (an unknown
+    certificate type became `ALL`, an unknown kind became `NO_KIND`, which is refused). -/
+def spellingOK (wh : CertT) (kindKnown : Bool) (admin : Bool) : Bool :=
+  kindKnown && ((if admin then viaAdminDB wh else wh) != .unknown)
+
+/-- What a provisioner whose enriching / authorizing webhooks are all written with
+    `certType = wh` (and a known or unknown kind) amounts to for a request of type `ctl`: it is
+    refused altogether, or the webhooks are consulted, or (written for the other certificate
+    type) they are not. -/
+def Cfg.consulted (c : Cfg) (ctl wh : CertT) (admin : Bool := false) (kindKnown : Bool := true) : Cfg :=
+  if (c.e + c.a != 0) && !spellingOK wh kindKnown admin then { c with refused := true }
+  else if certTypeOK ctl (if admin then viaAdminDB wh else wh) then c else { c with e := 0, a := 0 }
 
 /-- `authorizeToken`: the token is recorded (`UseToken`) … -/
 def authorizeTokenSteps : List Kind := [.useToken]
@@ -461,7 +477,7 @@ def pkiOperationSteps (c : Cfg) : List Kind :=
 /-- `api.renewIdentityCertificate`: nothing without a TLS peer certificate, else `renewContext` -/
 def identityRenewSteps (c : Cfg) : List Kind := if c.identity then renewContextSteps else []
 
-def steps : Op → Cfg → List Kind
+def stepsOf : Op → Cfg → List Kind
   | .sign, c => authorizeSteps ++ signX509Steps c
   | .renew, _ => renewContextSteps
   | .rekey, _ => renewContextSteps
@@ -474,6 +490,9 @@ def steps : Op → Cfg → List Kind
   | .acmeFinalize, c => finalizeHandlerPre ++ updateStatusSteps c ++ finalizeSteps c.ids c
   | .scepEnroll, c => pkiOperationSteps c
   | .sshSignFull, c => authorizeSteps ++ signSSHSteps c ++ signSSHAddUserSteps ++ identitySteps c
+
+/-- the whole request; a provisioner that failed to initialise refuses it first -/
+def steps (op : Op) (c : Cfg) : List Kind := (if c.refused then [Kind.refuse] else []) ++ stepsOf op c
 
 def Op.usesToken : Op → Bool
   | .sign | .revoke | .sshSign | .sshRenew | .sshRekey | .sshRevoke | .sshSignFull => true
@@ -639,7 +658,7 @@ def Kind.str : Kind → String
   | .req .acmeAuthzUpdate => "acmeAuthzUpdate" | .req .acmeOrderReady => "acmeOrderReady"
   | .acmeStoreCert => "acmeStoreCert" | .acmeUpdateOrder => "acmeUpdateOrder"
   | .challenge => "challenge" | .challengeDone => "challengeDone" | .arm => "arm" | .notify => "notify"
-  | .withData => "withData"
+  | .withData => "withData" | .refuse => "refuse"
 
 /-- How the source must treat the error of a call of this kind (compared with the go/ast
     extraction): `!` the error aborts before the success return, `!~` same but
